@@ -21,6 +21,8 @@ RULE = ('(1) exhaustive: every token sequence up to length N over the 14-symbol 
 def tok_of(sym):
     if sym in ('=', '+=', '{', '}', '(', ')', ','):
         return [sym, sym, None]
+    if len(sym) > 1 and sym[0] == sym[-1] == '"':
+        return ['name', sym, sym[1:-1]]       # ("quoted" in a hand-built text: spelled with the quotes, means the text between them)
     return ['name', sym, sym]
 
 
@@ -32,6 +34,8 @@ def gen(tier, seed):
             yield {'decls': None, 'flags': 0, 'texts': [[tok_of(s) for s in seq]], 'style': 'plain'}
     yield from handbuilt()
     yield from handbuilt2()
+    yield from handbuilt3()
+    yield from handbuilt4()
     rng = core.seeded_rng(seed, 'c01')
     nrand = 60000 if tier == 'quick' else 600000
     for _ in range(nrand):
@@ -40,7 +44,7 @@ def gen(tier, seed):
                           simple=True, null_sub=True, oddnames=True)
         decls = G.gen_schema(rng, so)
         nocase = rng.random() < 0.25
-        to = {'nocase': nocase, 'titles': ['a', 'A', 'b', 'web', 'Web', 'two words', '', 'x=y'] if nocase else None, 'oddkeys': not nocase}
+        to = {'nocase': nocase, 'titles': ['a', 'A', 'b', 'web', 'Web', 'two words', '', 'x=y'] if nocase else None, 'oddkeys': not nocase, 'pathnames': not nocase}
         ntext = 1 if rng.random() < 0.7 else rng.randint(2, 4)
         texts = []
         for _ in range(ntext):
@@ -88,6 +92,33 @@ def handbuilt2():
     for t1, t2 in (('pi = 3', 'sec a { } sec b { xi = 1 in { ye = 2 } }'), ('sec a { xs = v } one { zi = 4 zq = w }', 'sec a { } ps = again'), ('pq = r pf = 1', 'one { }')):
         for flags in (0, F_NOCASE):
             yield {'decls': [d.to_json() for d in decls], 'flags': flags, 'texts': [T(t1), T(t2)], 'style': 'plain'}
+
+
+def handbuilt4():
+    """the same option name at two levels, the inner one also addressed by path from outside"""
+    decls = [D('a', 'int', default=1), D('s', 'sec', 0, sub=[D('a', 'int', default=5), D('b', 'str', default='x'), D('l', 'int', F_LIST, default=[1])]), D('b', 'str', default='y'),
+             D('l', 'int', F_LIST, default=[2]), D('m', 'sec', F_MULTI, sub=[D('a', 'int', default=6)])]
+    for t1, t2 in (('s|a = 1 a = 2', 'a = 3 s|a = 4 a = 5 s|b = p b = q'), ('s { a = 7 } a = 8 s|a = 9 a = 10', 's|l += { 3 } l += { 4 } s|l = { } l = { 5 }'),
+                   ('m { } m|a = 2 a = 3 m { a = 4 } "m=1|a" = 5 a = 6', 'b = r s|b = t b = u')):
+        yield {'decls': [d.to_json() for d in decls], 'flags': 0, 'texts': [T(t1), T(t2)], 'style': 'plain'}
+
+
+def handbuilt3():
+    """sections declared 12 levels deep (plain, multi and titled alternating), every level with its own defaults"""
+    def level(k):
+        leafs = [D('v%d' % k, 'int', default=k), D('l%d' % k, 'int', F_LIST, default=[k, k + 1]), D('t%d' % k, 'str', default='d%d' % k)]
+        if k == 12:
+            return leafs
+        fl = [0, F_MULTI, F_MULTI | F_TITLE][k % 3]
+        return leafs + [D('s%d' % k, 'sec', fl, sub=level(k + 1))]
+    decls = level(1)
+    def nest(k, inner):
+        if k == 12:
+            return inner
+        ttl = 'n%d ' % k if k % 3 == 2 else ''
+        return 's%d %s{ v%d = %d %s }' % (k, ttl, k + 1, 100 + k, nest(k + 1, inner))
+    for t1, t2 in ((nest(1, 'l12 += { 5 }'), nest(1, 't12 = again')), (nest(1, ''), 'v1 = 9'), ('v1 = 2', nest(1, 'v12 = 1'))):
+        yield {'decls': [d.to_json() for d in decls], 'flags': 0, 'texts': [T(t1), T(t2)], 'style': 'plain'}
 
 
 def mutate(rng, toks):
